@@ -2,8 +2,10 @@
 """tools/install_seed.py <ID> <m>  : copy a confirmed seeded change from /tmp/seed/<ID>/out/<m> to /verif/seeded/<ID>-<m>/"""
 import json, shutil, sys, os
 pid, m = sys.argv[1], sys.argv[2]
-src = '/tmp/seed/%s/out/%s' % (pid, m)
-dst = '/verif/seeded/%s-%s' % (pid, m)
+base = sys.argv[3] if len(sys.argv) > 3 else '/tmp/seed'          # scratch root of this round
+as_ = sys.argv[4] if len(sys.argv) > 4 else m                      # name under /verif/seeded (m3, m4 ... for later rounds)
+src = '%s/%s/out/%s' % (base, pid, m)
+dst = '/verif/seeded/%s-%s' % (pid, as_)
 os.makedirs(dst, exist_ok=True)
 for f in ('patch.diff', 'demo.py', 'notes.md'):
     shutil.copy(os.path.join(src, f), os.path.join(dst, f))
